@@ -20,7 +20,8 @@ file out, re-loaded with `xtuml.ModelLoader`).
   D  the definitions built (before and after the edits; canonical form: classes by key letters,
      identifiers by number, associations by relationship number and then by content, key PAIRS sorted)
      equal the specification `ooa_encoder.py_extract` of the (edited) diagram — so an edit changes exactly
-     the corresponding part; an unknown component name raises OoaOfOoaException; the SQL written by
+     the corresponding part; an unknown component name raises OoaOfOoaException; a relationship of the component whose class lies outside
+     it (or two classes with the same upper-cased key letters) makes the build raise MetaModelException; the SQL written by
      gen_sql_schema / xtuml.serialize_schema + serialize_unique_identifiers loads back to the same
      definitions.
   K  the same canonical definitions from the Lean model: `extract d`, `extract (applyEdits es d)` and
@@ -46,7 +47,7 @@ RULE = ('random class diagrams (1-5 classes, 0-6 relationships of every kind inc
         'applicable site (rename each attribute, retype each base attribute to each supported type, every permutation '
         'of the attributes of each class up to 4 attributes, each Mult / Cond value and a new phrase at each end, each '
         'class / relationship to each container, each class moved out of / into the component together with its '
-        'relationships) and random scripts. A case is non-trivial when the scope holds a formalised relationship and, '
+        'relationships, each class moved alone - the build must then raise MetaModelException because a relationship of the component lost a class) and random scripts; plus OPEN scopes on synthesised diagrams: components (nested ones, packages inside components) that hold a relationship but not all of its classes, initially or after unrestricted move edits - expected outcome MetaModelException, never a half-defined association. A case is non-trivial when the scope holds a formalised relationship and, '
         'if it has edits, the edits change the result; distinct = distinct case content')
 EXHAUSTIVE = {'quick': False, 'thorough': False}
 ASSUMPTIONS = [
@@ -192,8 +193,8 @@ def generate(ctx):
                     yield {'src': 'real', 'model': model, 'comp': name, 'drv': drv, 'edits': [], 'entry': entry,
                            'perm': rng.randint(1, 1 << 30)}
                 for edits in _real_sites(d, name):
-                    if not _valid_script(d, name, edits):
-                        continue
+                    # scripts that leave a relationship of the component without one of its classes are kept:
+                    # the build must then raise MetaModelException
                     i += 1
                     yield {'src': 'real', 'model': model, 'comp': name, 'drv': drv, 'edits': edits, 'entry': 'mk',
                            'perm': rng.randint(1, 1 << 30) if i % 3 == 0 else None}
@@ -229,6 +230,25 @@ def generate(ctx):
             edits = _script(r, d, name, r.randint(1, ctx.pick(3, 5)))
         yield {'src': 'synth', 'diagram': d, 'comp': name, 'drv': drv, 'edits': edits, 'entry': entry,
                'perm': r.randint(1, 1 << 30), 'audit': i % 4 == 0}
+        # ---- open scopes: a component that holds a relationship but not all of its classes (initially or after
+        #      unrestricted move edits), nested components and packages inside components included
+        opened = [k['name'] for k in d['containers'] if k['comp'] and not E.scope_valid(d, k['id'])]
+        if opened and i % 2 == 0:
+            yield {'src': 'synth', 'diagram': d, 'comp': r.choice(opened), 'drv': drv, 'edits': [],
+                   'entry': r.choice(['mk', 'build', 'load', 'main']) if not drv else r.choice(['mk', 'build', 'main']),
+                   'perm': r.randint(1, 1 << 30)}
+        comps = [k['name'] for k in d['containers'] if k['comp']]
+        if comps and i % 3 == 0:
+            nm = r.choice(comps)
+            free, cur = [], d
+            for _ in range(r.randint(1, 4)):
+                e = E.gen_edit(r, cur, _comp_id(cur, nm), ['move-class', 'move-rel', 'move-class', 'rename'])
+                if e is None:
+                    break
+                cur = E.py_apply_edit(cur, e)
+                free.append(e)
+            yield {'src': 'synth', 'diagram': d, 'comp': nm, 'drv': drv, 'edits': free, 'entry': 'mk',
+                   'perm': r.randint(1, 1 << 30)}
 
 
 # --------------------------------------------------------------------------- implementation side
@@ -290,6 +310,9 @@ def run_impl(case):
     sel0, sel1 = E.py_select_comp(d0, name), E.py_select_comp(d1, name)
     want0 = E.py_extract(d0, sel0[1], drv) if sel0[0] == 'ok' else None
     want1 = E.py_extract(d1, sel1[1], drv) if sel1[0] == 'ok' else None
+    def0 = want0 is not None and E.py_definable(want0)
+    def1 = want1 is not None and E.py_definable(want1)
+    stats['open_scope'] = int((want0 is not None and not def0) or (want1 is not None and not def1))
 
     with tempfile.TemporaryDirectory(dir=_ctx['tmp']) as tmpdir:
         loader, path = _loader_for(case, tmpdir)
@@ -307,7 +330,10 @@ def run_impl(case):
                     for e in edits:
                         E.pop_apply_edit(m, e)
                     c_c = m.select_any('C_C', xtuml.where_eq(Name=name)) if name is not None else None
-                    comp = ooaofooa.mk_component(m, c_c, drv)
+                    try:
+                        comp = ooaofooa.mk_component(m, c_c, drv)
+                    except xtuml.MetaModelException:
+                        raise _AfterEdits(got0)
                     got1 = E.canon_metamodel(comp)
                     text = xtuml.serialize_schema(comp) + xtuml.serialize_unique_identifiers(comp)
                     back = _reload(text)
@@ -340,10 +366,30 @@ def run_impl(case):
             obs = ['ok', got0, got1]
         except ooaofooa.OoaOfOoaException:
             obs = ['error', 'OoaOfOoaException']
+        except _AfterEdits as e:
+            obs = ['ok-error', e.args[0], 'MetaModelException']
+        except xtuml.MetaModelException:
+            # define_class / define_association refused a definition (UnknownClassException is a MetaModelException)
+            obs = ['error', 'MetaModelException']
         except SystemExit as e:
             obs = ['error', 'SystemExit(%s)' % (e.code,)]
 
-    if obs[0] == 'ok':
+    if obs[0] == 'ok' and want0 is not None and not (def0 and def1):
+        fail('dangling-association-accepted', 'a relationship of the component has a class outside the component (or an '
+             'unknown target key), no association can be defined for it, yet a component was built: %s'
+             % json.dumps(obs[2]))
+    elif obs[0] == 'ok-error':
+        if not def0 or obs[1] != want0:
+            fail(_first_diff(obs[1], want0) if want0 else 'unknown-component-accepted',
+                 'the component defines %s, the class model specifies %s' % (json.dumps(obs[1]), json.dumps(want0)))
+        elif def1:
+            fail('component-rejected', 'after the edits MetaModelException was raised although every definition is possible')
+    elif obs == ['error', 'MetaModelException']:
+        if def0 and (not edits or entry != 'mk'):
+            fail('component-rejected', 'MetaModelException raised although every definition is possible')
+        elif def0:
+            fail('component-rejected', 'MetaModelException raised before the edits although every definition is possible')
+    elif obs[0] == 'ok':
         if want0 is None:
             fail('unknown-component-accepted', 'component %r does not exist but a model was built' % (name,))
         else:
@@ -361,6 +407,10 @@ def run_impl(case):
     nontrivial = bool(in_scope and (not edits or want0 != want1))
     key = hashlib.sha1(json.dumps(case, sort_keys=True, default=str).encode()).hexdigest()
     return {'obs': obs, 'd_fail': fails[:3], 'nontrivial': nontrivial, 'key': key, 'stats': stats}
+
+
+class _AfterEdits(Exception):
+    """mk_component raised MetaModelException after the edits; carries the definitions before the edits"""
 
 
 def _audit(m, d):
@@ -425,6 +475,8 @@ def model_line(case):
 def model_obs(case, ans):
     if ans[0] == 'error':
         return ['error', str(ans[1])]
+    if ans[0] == 'ok-error':
+        return ['ok-error', E.canon_schema_sexp(ans[1]), str(ans[2])]
     s0, s1, s2 = (E.canon_schema_sexp(x) for x in ans[1:4])
     if s1 != s2:
         return ['model-inconsistent', s1, s2]
